@@ -231,6 +231,24 @@ def run(ctx):
     for o in pages:
         k = "%s/%s" % (["localfs", "staticfs", "composefs", "nested"][o["fs"]], "remote" if o["remote"] else "direct")
         dist[k] = dist.get(k, 0) + 1
+    FSN = ["localfs", "staticfs", "composefs", "nested"]
+    table = {}
+    for o in pages:
+        k = "%s/%s" % (FSN[o["fs"]], "client+server" if o["remote"] else "File direct")
+        e = table.setdefault(k, {"listings": 0, "msize_values": set(), "count_min": None, "count_max": None, "max_entries": 0, "pages": 0,
+                                 "truncated_listings": 0, "count_beyond_msize": 0, "names_walked_and_stat": 0})
+        e["listings"] += 1
+        if o["remote"]:
+            e["msize_values"].add(o["msize"])
+            e["count_beyond_msize"] += 1 if o["count"] > o["msize"] else 0
+        e["count_min"] = o["count"] if e["count_min"] is None else min(e["count_min"], o["count"])
+        e["count_max"] = o["count"] if e["count_max"] is None else max(e["count_max"], o["count"])
+        e["max_entries"] = max(e["max_entries"], len(o["names"] or []))
+        e["pages"] += len(o["pages"] or [])
+        e["truncated_listings"] += 1 if len(o["pages"] or []) > 1 else 0
+        e["names_walked_and_stat"] += len(o["walkq"] or [])
+    for e in table.values():
+        e["msize_values"] = sorted(e["msize_values"])
     distinct = len({(o["fs"], o["remote"], o["msize"], o["count"], len(o["names"] or [])) for o in pages}) + \
         len({str(o["shape"]) + str(o["ops"]) for o in obs if o["kind"] == "qids"})
     ctx.coverage.update({
@@ -242,7 +260,11 @@ def run(ctx):
                 "distinct = distinct (fs, via, msize, count, size) tuples + distinct scripts" % max([len(o["names"] or []) for o in pages] + [0]),
         "correspondence": {"cases": len(obs), "mismatches": nm_, "by_kind": dist, "qid_scripts": len(obs) - len(pages),
                            "max_entries": max([len(o["names"] or []) for o in pages] + [0]),
-                           "max_pages": max([len(o["pages"] or []) for o in pages] + [0])},
+                           "max_pages": max([len(o["pages"] or []) for o in pages] + [0]),
+                           "by_fs_and_path": table,
+                           "note": "client+server rows: real p9.NewClient(WithMessageSize(msize)) + real p9.Server over net.Pipe; Readdir pages, "
+                                   "Walk([name]) and GetAttr all go through the wire; pages compared with Paging.v (remote_readdir: client clamp, "
+                                   "server clamp, whole-entry truncation), QIDs/types of every listed entry compared with the Walk and GetAttr replies"},
         "samples": [summarize(o) for o in (pages[:1] + pages[len(pages) // 2:len(pages) // 2 + 1] + [x for x in obs if x["kind"] == "qids"][:1])],
     })
 
